@@ -372,7 +372,7 @@ def ber_case(case):
 def run(ctx):
     quick = ctx.quick
     seed = ctx.seed
-    k_lat = 2 if quick else 3
+    k_lat = 3 if quick else 3
     nw = 8 if quick else 10
     lat1 = lattice(1)
     latk = lattice(k_lat)
